@@ -4,10 +4,12 @@ import SynKitProofs.GmlReindexLemmas
 # C10 — helper lemmas for the `explicit_hydrogen=True`, `reindex=True` round trip
 
 `readX_spec` / `roundtripX` of `ReprOptLemmas.lean` are about the context graph `form I …` that
-`h_to_explicit` builds (new hydrogens numbered from `maxId I + 1`).  With `reindex=True` the context
-graph is that graph *renumbered on the atoms of `I` only*; here the two lemmas are redone for an
-abstract pendant extension (`Pendant`): any context graph that consists of the atoms of `I` (labels
-kept) plus new `H` atoms, each hanging on one atom of `I` by a fresh bond.
+`h_to_explicit` builds (new hydrogens numbered from `maxId I + 1`).  With `reindex=True` the writer
+renumbers the atoms first and expands afterwards (F44 repaired), so the rule is the ids-kept export of
+the renumbered ITS (`itsToGmlX_reindex`) and the round trip is `roundtripX` of that graph read through
+the renumbering (`roundtripX_reindex`).  The first part redoes the two lemmas for an abstract pendant
+extension (`Pendant`): any context graph that consists of the atoms of `I` (labels kept) plus new `H`
+atoms, each hanging on one atom of `I` by a fresh bond — independent of how the new ids are chosen.
 -/
 namespace SynKit.ReprOpt
 open SynKit SynKit.Repr SynKit.Gml
@@ -349,179 +351,31 @@ theorem reindex_sides (I : LGraph) (hs : ItsShape I) :
     · intro p hp
       exact (sideAttrs_indep i p.1 (f p.1) p.2 (hs.2.1 p hp)).1
 
-/-- the new hydrogens get ids above the number of atoms: then the renumbering `1..n` of the atoms
-cannot reach them.  (Fails exactly when the atoms are numbered `0..n-1` and a hydrogen is added.) -/
-def FreshAbove (I : LGraph) : Prop := ∀ q ∈ addedH I, I.ids.length < q.1
-
-instance (I : LGraph) : Decidable (FreshAbove I) := by unfold FreshAbove; infer_instance
-
-theorem indexMap_old (I : LGraph) (hs : ItsShape I) (n : Nat) (hn : n ∈ I.ids) :
-    indexMap (side 0 I) n = I.ids.idxOf n + 1 := by
-  have hids := side_ids 0 I hs.2.1
-  have : (side 0 I).hasNode n = true := by simpa [LGraph.hasNode, hids] using hn
-  simp only [indexMap, this, if_true, hids]
-
-theorem indexMap_new (I : LGraph) (hs : ItsShape I) (n : Nat) (hn : n ∉ I.ids) :
-    indexMap (side 0 I) n = n := by
-  have hids := side_ids 0 I hs.2.1
-  have : (side 0 I).hasNode n = false := by simpa [LGraph.hasNode, hids] using hn
-  simp only [indexMap, this]; rfl
-
-theorem indexMap_old_le (I : LGraph) (hs : ItsShape I) (n : Nat) (hn : n ∈ I.ids) :
-    1 ≤ indexMap (side 0 I) n ∧ indexMap (side 0 I) n ≤ I.ids.length := by
-  rw [indexMap_old I hs n hn]
-  have := List.idxOf_lt_length_iff.2 hn
-  omega
-
-theorem form_attrs_new (I : LGraph) (q : Nat × Nat) (hq : q ∈ addedH I) :
-    (form I (expanded I [])).attrs q.1 = hAttrs := by
-  obtain ⟨b1, _, _⟩ := addedH_spec I q hq
-  have hnotI : q.1 ∉ I.ids := fun h => by have := le_maxId I _ h; omega
-  unfold LGraph.attrs
-  cases hf : (form I (expanded I [])).nodes.find? (fun p => decide (p.1 = q.1)) with
-  | none =>
-    exfalso
-    have := List.find?_eq_none.1 hf (freshNode q) (by
-      simp only [form, List.mem_append]; exact Or.inr (List.mem_map.2 ⟨q, hq, rfl⟩))
-    simp [freshNode] at this
-  | some r =>
-    have hr := List.mem_of_find?_eq_some hf
-    have hr1 : r.1 = q.1 := by simpa using List.find?_some hf
-    simp only [form, List.mem_append] at hr
-    rcases hr with hr | hr
-    · exfalso
-      apply hnotI
-      rw [← form_old_ids I (expanded I []), ← hr1]
-      exact List.mem_map.2 ⟨r, hr, rfl⟩
-    · obtain ⟨x, _, rfl⟩ := List.mem_map.1 hr
-      rfl
-
-/-- the pendant hydrogens of the re-indexed export: same new ids, renumbered parents. -/
-def addedHR (I : LGraph) : List (Nat × Nat) := (addedH I).map fun q => (q.1, indexMap (side 0 I) q.2)
-
-theorem injOn_indexMap_form (I : LGraph) (hs : ItsShape I) (hfa : FreshAbove I) :
-    Match.InjOnIds (form I (expanded I [])) (indexMap (side 0 I)) := by
-  have hmem : ∀ n, n ∈ (form I (expanded I [])).ids ↔ n ∈ I.ids ∨ ∃ q ∈ addedH I, n = q.1 := by
-    intro n; rw [form_ids, List.mem_append, mem_addedH_fst]
-  intro a ha b hb e
-  by_cases ha' : a ∈ I.ids <;> by_cases hb' : b ∈ I.ids
-  · exact injOn_indexMap I hs a ha' b hb' e
-  · rw [indexMap_new I hs b hb'] at e
-    have := indexMap_old_le I hs a ha'
-    rcases (hmem b).1 hb with h | ⟨q, hq, rfl⟩
-    · exact absurd h hb'
-    · have := hfa q hq; omega
-  · rw [indexMap_new I hs a ha'] at e
-    have := indexMap_old_le I hs b hb'
-    rcases (hmem a).1 ha with h | ⟨q, hq, rfl⟩
-    · exact absurd h ha'
-    · have := hfa q hq; omega
-  · rw [indexMap_new I hs a ha', indexMap_new I hs b hb'] at e; exact e
-
-theorem pendant_reindex (I : LGraph) (hs : ItsShape I) (hfa : FreshAbove I) :
-    Pendant (I.relabel (indexMap (side 0 I))) ((form I (expanded I [])).relabel (indexMap (side 0 I))) (addedHR I) := by
-  have hinj := injOn_indexMap_form I hs hfa
-  have hnew : ∀ q ∈ addedH I, q.1 ∉ I.ids := by
-    intro q hq h
-    obtain ⟨b1, _, _⟩ := addedH_spec I q hq
-    have := le_maxId I _ h; omega
-  have hfnew : ∀ q ∈ addedH I, indexMap (side 0 I) q.1 = q.1 := fun q hq => indexMap_new I hs q.1 (hnew q hq)
-  have hmem : ∀ n, n ∈ (form I (expanded I [])).ids ↔ n ∈ I.ids ∨ ∃ q ∈ addedH I, n = q.1 := by
-    intro n; rw [form_ids, List.mem_append, mem_addedH_fst]
-  have hKnd : (form I (expanded I [])).ids.Nodup := by
-    rw [form_ids, List.nodup_append]
-    refine ⟨hs.1.1, List.nodup_range' 1 (by omega), ?_⟩
-    intro a ha b hb e
-    have := le_maxId I a ha
-    have := (List.mem_range'_1.1 hb).1
-    omega
-  generalize hfdef : indexMap (side 0 I) = f at *
-  refine ⟨?_, ?_, ?_, ?_, ?_, ?_, ?_, ?_⟩
-  · unfold addedHR
-    rw [hfdef, List.map_map]
-    have : ((fun q : Nat × Nat => q.1) ∘ fun q : Nat × Nat => (q.1, f q.2)) = (·.1) := rfl
-    rw [this]
-    unfold addedH
-    rw [planL_fst]; exact List.nodup_range' 1 (by omega)
-  · intro q hq
-    unfold addedHR at hq
-    rw [hfdef] at hq
-    obtain ⟨q0, hq0, rfl⟩ := List.mem_map.1 hq
-    rw [Match.relabel_ids]
-    intro h
-    obtain ⟨n, hn, e⟩ := List.mem_map.1 h
-    have h1 : f n ≤ I.ids.length := by rw [← hfdef]; exact (indexMap_old_le I hs n hn).2
-    have := hfa q0 hq0
-    simp only at e
-    omega
-  · intro q hq
-    unfold addedHR at hq
-    rw [hfdef] at hq
-    obtain ⟨q0, hq0, rfl⟩ := List.mem_map.1 hq
-    rw [Match.relabel_ids]
-    exact List.mem_map.2 ⟨q0.2, (addedH_spec I q0 hq0).2.1, rfl⟩
-  · intro n
-    rw [Match.relabel_ids, Match.relabel_ids]
-    unfold addedHR
-    rw [hfdef]
-    constructor
-    · intro h
-      obtain ⟨m, hm, rfl⟩ := List.mem_map.1 h
-      rcases (hmem m).1 hm with h1 | ⟨q, hq, rfl⟩
-      · exact Or.inl (List.mem_map.2 ⟨m, h1, rfl⟩)
-      · exact Or.inr ⟨_, List.mem_map.2 ⟨q, hq, rfl⟩, hfnew q hq⟩
-    · rintro (h | ⟨q, hq, rfl⟩)
-      · obtain ⟨m, hm, rfl⟩ := List.mem_map.1 h
-        exact List.mem_map.2 ⟨m, (hmem m).2 (Or.inl hm), rfl⟩
-      · obtain ⟨q0, hq0, rfl⟩ := List.mem_map.1 hq
-        exact List.mem_map.2 ⟨q0.1, (hmem _).2 (Or.inr ⟨q0, hq0, rfl⟩), hfnew q0 hq0⟩
-  · rw [Match.relabel_ids]
-    exact List.Nodup.map_on (fun a ha b hb e => hinj a ha b hb e) hKnd
-  · unfold addedHR
-    rw [hfdef]
-    show ((form I (expanded I [])).edges.map fun e => (f e.1, f e.2.1, e.2.2)) =
-      (I.edges.map fun e => (f e.1, f e.2.1, e.2.2)) ++ _
-    have : (form I (expanded I [])).edges = I.edges ++ (addedH I).map freshEdge := rfl
-    rw [this, List.map_append, List.map_map, List.map_map]
-    congr 1
-    apply List.map_congr_left
-    intro q hq
-    simp only [Function.comp, freshEdge, hfnew q hq]
-  · intro p hp
-    simp only [LGraph.relabel] at hp
-    obtain ⟨p0, hp0, rfl⟩ := List.mem_map.1 hp
-    have hp0id : p0.1 ∈ I.ids := List.mem_map.2 ⟨p0, hp0, rfl⟩
-    show nodeLabel (((form I (expanded I [])).relabel f).attrs (f p0.1)) = nodeLabel p0.2
-    rw [Match.relabel_attrs_on _ f hinj p0.1 ((hmem _).2 (Or.inl hp0id)), form_attrs_old I hs.1.1 _ p0 hp0]
-    split
-    · rw [nodeLabel_expNode]
-    · rfl
-  · intro q hq
-    unfold addedHR at hq
-    rw [hfdef] at hq
-    obtain ⟨q0, hq0, rfl⟩ := List.mem_map.1 hq
-    show ((form I (expanded I [])).relabel f).attrs q0.1 = hAttrs
-    rw [← hfnew q0 hq0, Match.relabel_attrs_on _ f hinj q0.1 ((hmem _).2 (Or.inr ⟨q0, hq0, rfl⟩))]
-    exact form_attrs_new I q0 hq0
-
 theorem stdConsistent_relabel (I : LGraph) (hc : StdConsistent I) (f : Nat → Nat) : StdConsistent (I.relabel f) := by
   intro e he hz
   simp only [LGraph.relabel] at he
   obtain ⟨e0, he0, rfl⟩ := List.mem_map.1 he
   exact hc e0 he0 hz
 
+/-- **`reindex=True` is `reindex=False` on the renumbered ITS**: the writer renumbers the three graphs
+first and expands the hydrogens of the renumbered context graph afterwards, so the rule written with
+`reindex=True`, `explicit_hydrogen=True` is the ids-kept explicit-hydrogen export of
+`I.relabel (indexMap (side 0 I))` (the explicit-hydrogen counterpart of `itsToGml_reindex`). -/
 theorem itsToGmlX_reindex (I : LGraph) (hs : ItsShape I) :
-    itsToGmlX false true true I =
-      ruleXg (I.relabel (indexMap (side 0 I))) ((form I (expanded I [])).relabel (indexMap (side 0 I))) := by
+    itsToGmlX false true true I = itsToGmlX false false true (I.relabel (indexMap (side 0 I))) := by
   obtain ⟨h1, h2⟩ := reindex_sides I hs
-  have hK : hToExplicitG I [] false = form I (expanded I []) := hToExplicitG_eq_form I hs.1.1 []
-  simp only [itsToGmlX, writeRuleX, decompose, if_true, Bool.false_eq_true, if_false, Bool.not_true, ruleXg]
-  rw [h1, h2 0, h2 1, hK]
+  rw [itsToGmlX_full]
+  simp only [itsToGmlX, writeRuleX, decompose, if_true, Bool.false_eq_true, if_false, Bool.not_true, ctxItemsX]
+  unfold chOf at h1
+  rw [h1, h2 0, h2 1]
 
-/-- **The rule written with `explicit_hydrogen=True`, `reindex=True`, read back** (full export). -/
-theorem roundtripX_reindex (I : LGraph) (hs : ItsShape I) (hc : StdConsistent I) (hfa : FreshAbove I) :
+/-- **The rule written with `explicit_hydrogen=True`, `reindex=True`, read back** (full export):
+`roundtripX_full` / `roundtripX` of the renumbered ITS `J = I.relabel (indexMap (side 0 I))`, read
+through the renumbering.  The new hydrogens are those of `J` (`addedH J`: ids `n+1, …`, parents
+already renumbered), so no id condition is needed. -/
+theorem roundtripX_reindex (I : LGraph) (hs : ItsShape I) (hc : StdConsistent I) :
     (∀ n, n ∈ (gmlToIts (itsToGmlX false true true I)).ids ↔
-      n ∈ I.ids.map (indexMap (side 0 I)) ∨ ∃ q ∈ addedH I, n = q.1) ∧
+      n ∈ I.ids.map (indexMap (side 0 I)) ∨ ∃ q ∈ addedH (I.relabel (indexMap (side 0 I))), n = q.1) ∧
     (∀ n ∈ I.ids,
       nodeView (gmlToIts (itsToGmlX false true true I)) (indexMap (side 0 I) n) = nodeView I n ∧
       nodeView (gmlToIts (itsToGmlX false true true I)) (indexMap (side 0 I) n) =
@@ -530,95 +384,38 @@ theorem roundtripX_reindex (I : LGraph) (hs : ItsShape I) (hc : StdConsistent I)
       edgeView (gmlToIts (itsToGmlX false true true I)) (indexMap (side 0 I) u) (indexMap (side 0 I) v) = edgeView I u v ∧
       edgeView (gmlToIts (itsToGmlX false true true I)) (indexMap (side 0 I) u) (indexMap (side 0 I) v) =
         edgeView (gmlToIts (itsToGml false true I)) (indexMap (side 0 I) u) (indexMap (side 0 I) v)) ∧
-    (∀ q ∈ addedH I, q.1 ∉ I.ids.map (indexMap (side 0 I)) ∧ q.2 ∈ I.ids ∧
+    (∀ q ∈ addedH (I.relabel (indexMap (side 0 I))),
+      q.1 ∉ I.ids.map (indexMap (side 0 I)) ∧ q.2 ∈ I.ids.map (indexMap (side 0 I)) ∧
       nodeView (gmlToIts (itsToGmlX false true true I)) q.1 = .tup [.str "H", .num 0, .str "H", .num 0] ∧
-      edgeView (gmlToIts (itsToGmlX false true true I)) (indexMap (side 0 I) q.2) q.1 = some (.tup [.num 2, .num 2]) ∧
-      ∀ u, u ≠ indexMap (side 0 I) q.2 → edgeView (gmlToIts (itsToGmlX false true true I)) u q.1 = none) ∧
-    (∀ v ∈ I.ids, ((addedH I).map (·.2)).count v = (hcnt (I.attrs v)).toNat) := by
+      edgeView (gmlToIts (itsToGmlX false true true I)) q.2 q.1 = some (.tup [.num 2, .num 2]) ∧
+      ∀ u, u ≠ q.2 → edgeView (gmlToIts (itsToGmlX false true true I)) u q.1 = none) ∧
+    (∀ v ∈ I.ids, ((addedH (I.relabel (indexMap (side 0 I)))).map (·.2)).count (indexMap (side 0 I) v) =
+      (hcnt (I.attrs v)).toNat) := by
   have hf := injOn_indexMap I hs
   have hsJ := itsShape_relabel I hs _ hf
   have hcJ := stdConsistent_relabel I hc (indexMap (side 0 I))
-  have hP := pendant_reindex I hs hfa
-  obtain ⟨a, b, c, d⟩ := roundtripXg _ _ _ hsJ hcJ hP
-  obtain ⟨_, r2, r3⟩ := gml_roundtrip_full' _ hsJ
-  rw [← itsToGmlX_reindex I hs] at a b c d
-  rw [← itsToGml_reindex I hs] at b c r2 r3
+  obtain ⟨a, b, c, d, e⟩ := roundtripX_full _ hsJ hcJ
+  obtain ⟨_, b', c', _⟩ := roundtripX _ hsJ hcJ
+  rw [← itsToGmlX_reindex I hs] at a b c d b' c'
+  rw [← itsToGml_reindex I hs] at b' c'
   have hJids : (I.relabel (indexMap (side 0 I))).ids = I.ids.map (indexMap (side 0 I)) := Match.relabel_ids _ _
-  rw [hJids] at a b c r2
-  have hmemH : ∀ n, (∃ q ∈ addedHR I, n = q.1) ↔ ∃ q ∈ addedH I, n = q.1 := by
-    intro n
-    unfold addedHR
-    constructor
-    · rintro ⟨q, hq, rfl⟩
-      obtain ⟨q0, hq0, rfl⟩ := List.mem_map.1 hq
-      exact ⟨q0, hq0, rfl⟩
-    · rintro ⟨q, hq, rfl⟩
-      exact ⟨_, List.mem_map.2 ⟨q, hq, rfl⟩, rfl⟩
-  refine ⟨?_, ?_, ?_, ?_, fun v hv => count_addedH I hs.1.1 v hv⟩
-  · intro n; rw [a n, hmemH]
+  rw [hJids] at a b c d e b' c'
+  refine ⟨a, ?_, ?_, d, ?_⟩
   · intro n hn
     have hfn : indexMap (side 0 I) n ∈ I.ids.map (indexMap (side 0 I)) := List.mem_map.2 ⟨n, hn, rfl⟩
-    have hb := b _ hfn
-    refine ⟨?_, hb⟩
-    rw [hb, r2 _ hfn]
+    refine ⟨?_, b' _ hfn⟩
+    rw [b _ hfn]
     unfold nodeView
     rw [Match.relabel_attrs_on I _ hf n hn]
   · intro u hu v hv
     have hfu : indexMap (side 0 I) u ∈ I.ids.map (indexMap (side 0 I)) := List.mem_map.2 ⟨u, hu, rfl⟩
     have hfv : indexMap (side 0 I) v ∈ I.ids.map (indexMap (side 0 I)) := List.mem_map.2 ⟨v, hv, rfl⟩
-    have hcc := c _ hfu _ hfv
-    refine ⟨?_, hcc⟩
-    rw [hcc, r3]
+    refine ⟨?_, c' _ hfu _ hfv⟩
+    rw [c _ hfu _ hfv]
     unfold edgeView
     rw [Match.relabel_edge?_on I hs.1 _ hf u v hu hv]
-  · intro q hq
-    have hqR : (q.1, indexMap (side 0 I) q.2) ∈ addedHR I := List.mem_map.2 ⟨q, hq, rfl⟩
-    obtain ⟨d1, d2, d3⟩ := d _ hqR
-    have hfr := hP.fresh _ hqR
-    rw [hJids] at hfr
-    exact ⟨hfr, (addedH_spec I q hq).2.1, d1, d2, d3⟩
-
-/-- `FreshAbove` is necessary: whenever a new hydrogen is not an id of the renumbered atoms, its id
-is above the number of atoms. -/
-theorem freshAbove_of_not_mem (I : LGraph) (hs : ItsShape I)
-    (h : ∀ q ∈ addedH I, q.1 ∉ I.ids.map (indexMap (side 0 I))) : FreshAbove I := by
-  intro q hq
-  have hq1 := h q hq
-  obtain ⟨b1, _, _⟩ := addedH_spec I q hq
-  have hmap : I.ids.map (indexMap (side 0 I)) = List.range' 1 I.ids.length := by
-    rw [← map_idxOf_succ I.ids hs.1.1]
-    apply List.map_congr_left
-    intro n hn; exact indexMap_old I hs n hn
-  rw [hmap, List.mem_range'_1] at hq1
-  omega
-
-theorem length_le_of_bounded : ∀ (m : Nat) (l : List Nat), l.Nodup → (∀ x ∈ l, 1 ≤ x ∧ x ≤ m) → l.length ≤ m := by
-  intro m
-  induction m with
-  | zero =>
-    intro l _ h
-    cases l with
-    | nil => simp
-    | cons a t => have := h a List.mem_cons_self; omega
-  | succ m ih =>
-    intro l hn h
-    have h1 := ih (l.erase (m + 1)) (hn.erase _) (by
-      intro x hx
-      have hx' := (hn.mem_erase_iff).1 hx
-      have := h x hx'.2
-      have := hx'.1
-      omega)
-    have h2 := List.length_erase_le (a := m + 1) (l := l)
-    by_cases hm : m + 1 ∈ l
-    · rw [List.length_erase_of_mem hm] at h1; omega
-    · rw [List.erase_of_not_mem hm] at h1; omega
-
-/-- ids ≥ 1 (what every SynKit producer delivers) is enough for `FreshAbove`. -/
-theorem freshAbove_of_pos (I : LGraph) (hn : I.ids.Nodup) (hpos : ∀ n ∈ I.ids, 1 ≤ n) : FreshAbove I := by
-  intro q hq
-  obtain ⟨b1, _, _⟩ := addedH_spec I q hq
-  have := length_le_of_bounded (maxId I) I.ids hn (fun x hx => ⟨hpos x hx, le_maxId I x hx⟩)
-  omega
+  · intro v hv
+    rw [e _ (List.mem_map.2 ⟨v, hv, rfl⟩), Match.relabel_attrs_on I _ hf v hv]
 
 /-- the renumbering the writer applies to the atoms of `I`: `indexMap` of the left side for
 `reindex=True` (the map of `itsToGml_reindex`), nothing otherwise. -/
@@ -626,6 +423,12 @@ def renum (ri : Bool) (I : LGraph) : Nat → Nat := if ri then indexMap (side 0 
 
 theorem renum_true (I : LGraph) : renum true I = indexMap (side 0 I) := rfl
 theorem renum_false (I : LGraph) : renum false I = id := rfl
+
+/-- the graph whose ids-kept export the writer produces: the ITS renumbered by `renum ri I`. -/
+def renumG (ri : Bool) (I : LGraph) : LGraph := if ri then I.relabel (indexMap (side 0 I)) else I
+
+theorem renumG_true (I : LGraph) : renumG true I = I.relabel (indexMap (side 0 I)) := rfl
+theorem renumG_false (I : LGraph) : renumG false I = I := rfl
 
 end GmlXR
 end SynKit.ReprOpt
